@@ -26,6 +26,8 @@ the areas. A third model file, `Model/SimplifyTie.lean`, is the freedom the stat
 small triangles goes first (`VwAnyResult`, `visvalingamAll`): T13 proves the property for **every** such run, that the code's run is
 one of them and that the enumeration the correspondence check accepts is sound (`Lemmas/SimplifyVwTie.lean`). T14
 (`Lemmas/SimplifyVwFirst.lean`) characterises, pass by pass, when the first observation survives a mixed column.
+`Props/C16b.lean` continues this file: T6 for every column without NaN, the whole run on a column of NaN, completeness of the enumeration of
+T13, and T16 — the depth of Douglas–Peucker's recursion (`dpDepth`).
 
 A fix is `⟨tag, x, y⟩`; *sublist* is about fixes (tag included), i.e. about observations.
 `douglasPeucker … = some out` means "the call returns `out`"; `none` is Python's unbounded recursion.
@@ -455,9 +457,10 @@ theorem vw_all_levels_sound (big eps : α) (cap : Nat) (L : List (Fix α)) (R : 
 /-- T14 (mixed columns — some triangle areas finite, some infinite or NaN; the characterisation that round 1 left open, at the level
 of the passes): on a track of pairwise different observations (tagged fixes are), for any areas, any tolerance, any scalar type,
 **the first observation is kept if and only if every pass of the loop finds a minimum** — `AllHit`: at every pass some entry of the
-`'@aire'` column is a number below ARGMIN's initial minimum `+inf`. (Then ARGMIN answers an index `>= 1` and the NaN entry of the
+`'@aire'` column is a number below ARGMIN's initial minimum `+inf` or — since b728412 — equal to it. (Then ARGMIN answers an index `>= 1` and the NaN entry of the
 first observation is never rewritten; otherwise it answers its default `0`, `NaN > eps` is `False`, and the first observation goes.)
-T6 is the case where all areas are below `big` (every pass then finds a minimum), T6' the case where none is. -/
+T6 is the case where all areas are below `big` or equal to it (every pass then finds a minimum: `vw_sublist_ends_no_nan`, `Props/C16b.lean`), T6' the case
+where none is (`vw_all_nan`, same file, for the whole run). -/
 theorem vw_first_kept_iff (big eps : α) (L : List (Fix α)) (h1 : 1 ≤ L.length) (hn : L.Nodup) :
     (visvalingam big eps L).head? = L.head? ↔ AllHit big (eps * eps) L.length (vwInit L) := by
   have hf : FirstNaN (vwInit L) := ⟨L[0], by rw [vwInit_getElem?, List.getElem?_eq_getElem (by omega)]; rfl⟩
